@@ -722,6 +722,58 @@ func c04Command(name string, nrep int, disable bool, slot int, password string) 
 	return sc
 }
 
+// c04RealBoot: the proxy is started by the REAL serve() / engine.start(): seed pools from the configured server list, the
+// handshake command rendered at boot, optionally preconnected connections; the first topology arrives through the real
+// probe path. Then requests: every connection that carries a request has authenticated (and is READONLY on a replica)
+// before, and every request reaches the owning set.
+func c04RealBoot(name string, nodes []world.NodeSpec, seeds []string, pw string, preconnect, disableSlave bool, bound int) *world.Scenario {
+	sc := &world.Scenario{Nodes: nodes, Bound: bound, Family: "real-boot", Horizon: 600, RealBoot: true, Seeds: seeds, Preconnect: preconnect,
+		Password: pw, DisableSlave: disableSlave, RefreshLoop: true, CheckOwner: true,
+		Ticks: []time.Duration{1100 * time.Millisecond, 1100 * time.Millisecond, 1100 * time.Millisecond}}
+	sc.TickGate = func(w *world.World) bool { return w.ProbesIdle() }
+	reqs := []Req{GetReq(keysA[0]), SetReq(keysA[1], "v"), GetReq(keysB[0]), SetReq(keysC[0], "w"), MGetReq(keysA[2], keysB[2])}
+	cs := ClientOf(reqs, false)
+	for j := range cs.Chunks {
+		cs.Chunks[j].WaitTicks, cs.Chunks[j].WaitReplies = 3, j
+		cs.Chunks[j].Gate = func(w *world.World) bool { return w.ProbesIdle() }
+	}
+	sc.Clients = []world.ClientSpec{cs}
+	sc.Name = fmt.Sprintf("C04/real-boot/%s/pw=%v/preconnect=%v/disable_slave=%v/d%d", name, pw != "", preconnect, disableSlave, bound)
+	sc.Check = func(w *world.World) []world.Violation {
+		if w.RefreshDead {
+			return []world.Violation{{Sig: "crash", Msg: "the refresh goroutine terminated"}}
+		}
+		var vs []world.Violation
+		for _, bc := range w.BConns {
+			if !bc.SawData {
+				continue // a connection that only carried the proxy's own topology probe
+			}
+			want := []string{}
+			if pw != "" {
+				want = append(want, "auth")
+			}
+			if bc.Node.Master != "" {
+				want = append(want, "readonly")
+			}
+			if got := strings.Join(bc.PreData, ","); bc.BadOrder != "" || got != strings.Join(want, ",") {
+				sig := "request-before-auth"
+				if pw == "" || (len(bc.PreData) > 0 && bc.PreData[0] == "auth") {
+					sig = "request-before-readonly"
+				}
+				vs = append(vs, world.Violation{Sig: sig, Msg: fmt.Sprintf("connection %d to %s (replica=%v) carried requests after the handshake commands %q, expected %q; %s", bc.ID, bc.Addr, bc.Node.Master != "", got, strings.Join(want, ","), bc.BadOrder)})
+			}
+		}
+		if len(vs) == 0 {
+			vs = append(vs, c04RouteOracle(w, len(reqs)+1)...) // the split MGET travels as two fragments
+		}
+		if len(vs) == 0 {
+			vs = append(vs, CheckStreams(w, StreamOpts{})...)
+		}
+		return vs
+	}
+	return sc
+}
+
 func c04HandshakeCuts(mask int, password string, replica bool) *world.Scenario {
 	sc := &world.Scenario{Nodes: replicaTopo(1), Bound: 0, Family: "handshake", Horizon: 400, Password: password, InputEnum: true}
 	if !replica {
@@ -893,6 +945,17 @@ func c04Scenarios(tier string) []*world.Scenario {
 			b = 3
 		}
 		out = append(out, c04RoleFlip(pw, b))
+	}
+	// the REAL boot path: seeds = all masters / one master / a master and a replica; password and preconnect on and off
+	for _, pw := range []string{"", "secret"} {
+		for _, pre := range []bool{false, true} {
+			out = append(out, c04RealBoot("seeds-all-masters", T3(), []string{AddrA, AddrB, AddrC}, pw, pre, false, 1))
+			out = append(out, c04RealBoot("seeds-one-master", T3m(), []string{AddrB}, pw, pre, false, 1))
+			out = append(out, c04RealBoot("seeds-master+replica", T3(), []string{AddrC, AddrA1}, pw, pre, false, 1))
+			if pre {
+				out = append(out, c04RealBoot("seeds-all-masters", T3(), []string{AddrA, AddrB, AddrC}, pw, pre, true, 1))
+			}
+		}
 	}
 	lays := []string{"thirds", "edges"}
 	if thorough {
